@@ -25,6 +25,12 @@ exact power of ten for `k ≤ 22`, where every partial product of the repeated-s
 number; beyond that its value depends on the order of the multiplications).
 
 There is no exponent syntax in `val.rs`: `E`, `D`, `e`, `d` end the scan like any other letter.
+
+Since /repo 1b55932 the fraction arm leaves `value` as it is when `value * 10.0.powi(fp)` is not finite, and the
+end of `val` raises Overflow when `value` is an infinity.  Neither can happen inside the modelled fragment (at most
+300 characters: `value < 10^300`; at most 22 fraction digits: `10^300 * 10^22` is far below the binary64 overflow
+threshold `2^1024`), so the model has neither branch; beyond the fragment (310 digits and more) the harness
+checks `VAL` against the correctly rounded value (`c17.rs`, family `val.long-text`).
 -/
 namespace RbModel.Str
 open RbModel.Num (sigFits)
